@@ -415,6 +415,27 @@ def run(ctx, only_entry=False):
                     if not g.child_alts(b)[0] else True
                 chk.ob("grammar/prefix-order/%s-%s" % (a, b), ok,
                        "an instruction whose mnemonic is a prefix of a later one does not capture it", "grammar rule instruction", "")
+    # a label line is a label line whatever the name looks like: every name the rule raw_label accepts - in particular names
+    # that begin with a mnemonic, a register or a directive word - is accepted as `name:` and read as a label (under ordered
+    # choice an alternative tried earlier must not commit to a keyword prefix of the name)
+    words = sorted({m for _r, (_v, m) in tab["instruction"].items() if m} | {"R0", "R1", "R2", "R3", "PC", "SP", "ORG", "EQU", "DB"})
+    bad_lbl = []
+    nlbl = 0
+    for wd in words:
+        base = wd.lstrip(".*")
+        for name in (base + "X", base + "_1", base.lower() + "loop", base + "S", "X" + base):
+            if not name or not g.full_match("raw_label", name):
+                continue
+            nlbl += 1
+            for text in (name + ":", name + ": ; note", name + ":  "):
+                m = g.match_rule("line", text)
+                kinds = [c.rule for c in m[1][0].children if c.rule not in ("space",)] if m is not None and m[0] == len(text) and m[1] else None
+                if not kinds or kinds[0] != "label":
+                    bad_lbl.append("%r %s" % (text, "is rejected" if kinds is None else "reads as %s" % kinds))
+    chk.ob("grammar/label-lines", not bad_lbl and nlbl >= 100,
+           "every name raw_label accepts can head a label line, also when it begins with a mnemonic, register or directive word",
+           "grammar rule line", "; ".join(bad_lbl[:4]) or "%d names x 3 line forms" % nlbl,
+           "PEG matching of generated label lines against the grammar file")
     # numeric classes: exact ranges in three bases
     digits = "0123456789abcdefghijklmnopqrstuvwxyz"
     for rule, (radix, skip, maxv) in tab["numeric"].items():
